@@ -323,9 +323,15 @@ def run (toks : List String) : Option String :=
     let auto := !(cfgStr.endsWith "w1")
     let evs := if auto then evs.flatMap (fun e => [e, Ev.waitElapsed]) else evs
     let s : Script := { cfg, method, faults, evs }
-    let ws := execTrace s
+    -- harness convention: messages 3, 7, 11, … with QoS > 0 carry a caller-chosen identifier 20000 + m
+    -- (Message.ID already set when Publish is called: `pubAttempt` finds it in `pid` and draws none)
+    let presets := evs.filterMap (fun e => match e with
+      | .app (.pub m q) => if m % 4 = 3 ∧ q > 0 then some (m, 20000 + m) else none
+      | _ => none)
+    let w0 : World := { init s with pid := presets }
+    let ws := (evs.foldl (fun (acc : World × List World) e => let w := step acc.1 e; (w, acc.2 ++ [w])) (w0, [])).2
     let ws := if auto then (ws.zipIdx.filter (fun (_, i) => i % 2 = 1)).map (·.1) else ws
-    let final := ws.getLastD (init s)
+    let final := ws.getLastD w0
     let settled := final.taskQ.isEmpty && final.retryQ.isEmpty && !final.stuck && (match final.phase with | .up k => (getConn final k).alive | _ => false)
     pure (showWorld final ++ " || " ++ String.intercalate ";" (ws.map planOf) ++
       s!" # waits={joinOr (final.waits.map toString) ","} phase={showPhase final.phase} stuck={if final.stuck then 1 else 0} settled={if settled then 1 else 0}")
@@ -352,6 +358,8 @@ def parseEv (s : String) : Option Ev :=
   | ["sa", id, codes] => do pure (.inb (.suback (← id.toNat?) (← Oracle.parseDesc codes)))
   | ["ua", id] => do pure (.inb (.unsuback (← id.toNat?)))
   | ["pg"] => some (.inb .pingresp)
+  | ["in", q, id] => do pure (.inb (.publish (← q.toNat?) (← id.toNat?)))
+  | ["rel", id] => do pure (.inb (.pubrel (← id.toNat?)))
   | ["bad"] => some (.inb .malformed)
   | ["cancel", i] => do pure (.cancel (← i.toNat?))
   | ["eof"] => some .peerClose
@@ -369,6 +377,7 @@ def showRet : Ret → String
 def showW : W → String
   | .connect => "C" | .publish q i => s!"P{q}i{i}" | .pubrel i => s!"R{i}" | .subscribe i n => s!"S{i}n{n}"
   | .unsubscribe i => s!"U{i}" | .pingreq => "G" | .disconnect => "X"
+  | .puback i => s!"a{i}" | .pubrec i => s!"r{i}" | .pubcomp i => s!"c{i}"
 
 def showState : ConnState → String
   | .new => "New" | .active => "Active" | .closed => "Closed" | .disconnected => "Disconnected"
@@ -447,6 +456,12 @@ def handle (toks : List String) : Option String :=
     let fs ← filters.mapM parseDesc
     let hs := muxRegister fs
     pure s!"reg={showNatList (hs.map (·.1))} called={showNatList (muxServe hs (← parseDesc topic))}"
+  | "muxseq" :: ops => do
+    let ops ← ops.mapM (fun o => match o.splitOn ":" with
+      | ["H", f] => do pure (MuxOp.handle (← parseDesc f))
+      | ["S", t] => do pure (MuxOp.serve (← parseDesc t))
+      | _ => none)
+    pure (String.intercalate ";" ((muxSeq ops []).map showNatList))
   | ["ids", start, n] => do
     let c ← start.toNat?
     let n ← n.toNat?
@@ -495,7 +510,7 @@ def handle (toks : List String) : Option String :=
   | "bc" :: rest => BCIO.run rest
   | "ka" :: toks => do
     let evs ← toks.mapM (fun t => match t with
-      | "a" => some KA.PingEvent.pingresp | "A" => some .pingresp | "n" => some .timeout | "c" => some .parentCancel
+      | "a" => some KA.PingEvent.pingresp | "A" => some .pingresp | "s" => some .pingresp | "n" => some .timeout | "c" => some .parentCancel
       | "w" => some .writeFail | "e" => some .connEnd | _ => none)
     match KA.keepAlive (evs.map KA.pingOutcome) with
     | .running n => pure s!"pings={n} result=running"
